@@ -1,4 +1,5 @@
 import RaftVerif.Model.RunLoop
+import RaftVerif.Proofs.Leader
 /-! # C17 — every future resolves.  Registered: `RL.every_future_resolves`, `RL.refused_call_not_queued`
 (role-loop model: Apply futures only).  `FullStatement` (not proved): the same for every future kind
 (VerifyLeader through `verifyCh`, LeadershipTransfer, configuration changes, snapshots, restores) and
